@@ -81,7 +81,14 @@ def points(spec):
     e = int(spec.get("flat", 0) or 0)
     if e:
         P = P.copy()
-        P[:, int(spec.get("flat_axis", d - 1)) % d] *= 10.0 ** (-e)
+        ax = int(spec.get("flat_axis", d - 1)) % d
+        if spec.get("needle"):
+            # needle: every axis but one is scaled down (a plate when only one is)
+            for a in range(d):
+                if a != ax:
+                    P[:, a] *= 10.0 ** (-e)
+        else:
+            P[:, ax] *= 10.0 ** (-e)
     if spec.get("rot") is not None:
         P = P @ _rot(d, int(spec["rot"])).T
     P = P * float(spec.get("scale", 1.0))
@@ -94,7 +101,7 @@ def points(spec):
 def kind_label(spec):
     lab = f"d{spec['d']}:{spec['kind']}"
     if spec.get("flat"):
-        lab += ":flat"
+        lab += ":needle" if spec.get("needle") else ":flat"
     return lab
 
 
@@ -104,9 +111,11 @@ def placement(draw, d, allow_flat=True, allow_rot=True):
     if allow_flat and draw(st.integers(0, 3)) == 0:
         out["flat"] = draw(st.sampled_from([3, 4, 5, 6]))
         out["flat_axis"] = draw(st.integers(0, d - 1))
+        if d == 3 and draw(st.integers(0, 2)) == 0:
+            out["needle"] = True
     if allow_rot and draw(st.booleans()):
         out["rot"] = draw(st.integers(0, 2**31 - 1))
-    out["scale"] = 10.0 ** draw(st.sampled_from([0, 0, 0, -3, -2, -1, 1, 2, 3, 4, 5, 6]))
+    out["scale"] = 10.0 ** draw(st.sampled_from([0, 0, 0, -5, -4, -3, -2, -1, 1, 2, 3, 4, 5, 6]))
     mag = draw(st.sampled_from([0.0, 0.0, 1.0, 1e3, 1e6]))
     if mag:
         sign = [draw(st.sampled_from([-1.0, 1.0, 0.37])) for _ in range(d)]
